@@ -233,6 +233,7 @@ class Machine:
         self.now = 0                 # global ns since first event
         self.expect = Expect()
         self.offgrammar = None       # time of the first step outside the task runtimes' grammar (C20)
+        self.offgrammar_kind = None
         self.first_illegal = None    # (time, reason)
         self.dontcare = False
         self.ev_times = []
@@ -365,6 +366,7 @@ class Machine:
         if (model in TASK_BODY_LABEL and st and st[-1] == TASK_BODY_LABEL[model] and th.bstack[model]
                 and th.bstack[model][-1].state == "paused" and self.offgrammar is None):
             self.offgrammar = self.now   # region closed over a body that is still paused
+            self.offgrammar_kind = "pop-over-paused"
 
     # ---------------------------------------------------------------- ovni
     def apply_ovni(self, th, mcv, payload):
@@ -632,6 +634,7 @@ class Machine:
             ss = th.chan[(model, ssch)]
             if ss and ss[-1] == TASK_BODY_LABEL[model] and self.offgrammar is None:
                 self.offgrammar = self.now   # paused with no API/blocking region above the body
+                self.offgrammar_kind = "pause-without-region"
         elif v == "r":
             body.state = "running"
         else:
